@@ -162,6 +162,7 @@ def check(run):
             broken.append({"stage": "proof", "detail": {"file": f"variants/C11_{blk}_clean.v and variants/C11_{blk}_known.v", "lemma": f"{blk}_eq_spec",
                                                         "message": "neither the first-principles statement nor the recorded characterisation checks"}})
     okd, dlog = common.build_driver("tr")
+    final_found = None
     n = 200 if thorough else 25
     cases = [tr.rand_case(rng) for _ in range(n)]
     if not okd:
@@ -183,6 +184,23 @@ def check(run):
                                                                              "impl": float(a[r, cc]), "model": float(b[r, cc])}})
             run.cov["traces_validated_against_impl"] += 1
             run.sample({"nb": c["nb"], "masses": c["masses"], "nd": c["nd"]}, cap=3)
+        # the outputs themselves (diffusion matrix, thermal-diffusion coefficients, viscosity, electrical conductivity): model right-hand sides and
+        # final formulae against the implementation, incl. one- and two-species mixtures (single-gas limit) and mixtures with collision
+        # integrals spread over five decades, selected for genuinely negative multicomponent diffusion coefficients
+        small = [tr.rand_case(rng, 1) for _ in range(6 if thorough else 3)] + [tr.rand_case(rng, 2) for _ in range(6 if thorough else 2)]
+        neg = tr.negative_D_cases(rng, 6 if thorough else 3, 400 if thorough else 150)
+        run.cov["cases_with_negative_diffusion_coefficients"] = len(neg)
+        fdis = tr.final_formulae(run, cases[:(60 if thorough else 10)] + small + neg)
+        for c in small + neg:
+            run.count(1, distinct_key=("final", c["nb"], tuple(c["masses"]), tuple(c["nd"])), nontrivial=True)
+        dis += len(fdis)
+        final_found = None
+        if fdis:
+            broken.append({"stage": "correspondence", "detail": fdis[0]})
+            f0 = fdis[0]
+            final_found = {"kind": "output", "what": f"transport output differs from the model's final formula on the implementation's own matrices: {f0['what']} "
+                                                     f"(D[{f0['D_entry'][0]},{f0['D_entry'][1]}] implementation {f0['impl_D']!r}, model {f0['model_D']!r}, relative error {f0['error']:.3e})",
+                           "case": f0["case"], "nb": f0["nb"]}
         run.cov["correspondence_disagreements"] = dis
     # F: the implementation's blocks against first principles, order by order
     worst, examples = probe(rng, 12 if thorough else 4)
@@ -190,6 +208,10 @@ def check(run):
     run.cov["block_order_pairs_probed"] = len(worst)
     run.cov["block_order_mismatches"] = sorted(f"{b}:Qbar{o[0]}{o[1]}" for (b, o) in mism)
     reported = False
+    if okd and final_found is not None:
+        final_found["broken"] = broken
+        run.violation(final_found)
+        reported = True
     for (blk, o), e in sorted(mism.items()):
         key = f"{blk}:Qbar{o[0]}{o[1]}"
         ex = dict(examples[(blk, o)], kind="matrix-entry", what=f"{BLOCKS[blk][0]}: coefficient of Qbar^({o[0]},{o[1]}) differs from first principles (relative {e:.3e})",
@@ -212,6 +234,10 @@ def check(run):
 
 def replay(path):
     d = json.load(open(path))
+    if d.get("kind") == "output":
+        print(d.get("what"))
+        print(json.dumps(d.get("case"), default=str)[:1500])
+        return 1
     if d.get("kind") != "matrix-entry":
         print("replay names a broken obligation:", json.dumps(d.get("broken"), indent=1, default=str)[:2000])
         return 1
